@@ -364,3 +364,33 @@ pub fn fresh_pstr_tails(t: &T) -> Option<T> {
     }
     Some(go(t, &counter))
 }
+
+thread_local! {
+    /// known open findings met by this worker (per signature)
+    static TOLERATED: RefCell<std::collections::BTreeMap<String, u64>> = const { RefCell::new(std::collections::BTreeMap::new()) };
+}
+
+pub fn note_tolerated(sig: &str) {
+    TOLERATED.with(|m| *m.borrow_mut().entry(sig.to_string()).or_default() += 1);
+}
+
+/// A failure whose signature is a known open finding is counted and turned into a pass
+/// (class `known-finding:<family>`) so that the session is kept and the search goes on; the
+/// counts end up in the evidence's excluded_known through `drain_tolerated`. (Replays never
+/// tolerate: the known-open list is only set in worker processes.)
+pub fn tolerate(v: crate::engine::Verdict) -> crate::engine::Verdict {
+    match &v {
+        crate::engine::Verdict::Fail { signature, .. } if crate::engine::is_known_open(signature) => {
+            note_tolerated(signature);
+            let class = format!("known-finding:{}", signature.split(':').next().unwrap_or("?"));
+            crate::engine::Verdict::Pass { nontrivial: false, classes: vec![class] }
+        }
+        _ => v,
+    }
+}
+
+pub fn drain_tolerated(res: &mut crate::engine::ShardResult) {
+    for (k, v) in TOLERATED.with(|m| std::mem::take(&mut *m.borrow_mut())) {
+        *res.excluded_known.entry(k).or_default() += v;
+    }
+}
